@@ -162,18 +162,7 @@ func (e *vhSM) check(groups int) {
 		}
 	}
 
-	if groups&chkC02Sign != 0 {
-		for _, s := range e.signs[c.signs:] {
-			switch s.kind {
-			case 'P':
-				verifrt.Assert(e.signCount('P', s.hr) <= 1, "C02:at-most-one-proposal-signed-per-round")
-			case 'V':
-				verifrt.Assert(e.signCount('V', s.hr) <= 1, "C02:at-most-one-prevote-signed-per-round")
-			case 'C':
-				verifrt.Assert(e.signCount('C', s.hr) <= 1, "C02:at-most-one-precommit-signed-per-round")
-			}
-		}
-	}
+	// release obligations first: a (concrete) signature-count violation ends the path
 	if groups&chkC02Save != 0 {
 		for i, em := range e.emits[c.emits:] {
 			saved := false
@@ -202,6 +191,18 @@ func (e *vhSM) check(groups int) {
 		}
 	}
 
+	if groups&chkC02Sign != 0 {
+		for _, s := range e.signs[c.signs:] {
+			switch s.kind {
+			case 'P':
+				verifrt.Assert(e.signCount('P', s.hr) <= 1, "C02:at-most-one-proposal-signed-per-round")
+			case 'V':
+				verifrt.Assert(e.signCount('V', s.hr) <= 1, "C02:at-most-one-prevote-signed-per-round")
+			case 'C':
+				verifrt.Assert(e.signCount('C', s.hr) <= 1, "C02:at-most-one-precommit-signed-per-round")
+			}
+		}
+	}
 	if groups&chkC12 != 0 {
 		for _, t := range e.rt.recs[c.timers:] {
 			verifrt.Assert(!t.replacedLive, "C12:replaced-timer-was-cancelled-first")
